@@ -12,6 +12,29 @@ def load(d, pid):
     p = os.path.join(d, pid + ".json")
     if not os.path.exists(p): return None
     return json.load(open(p))
+SPACE = {
+ "C01": "fragment / hostile / delimiter strings, lexeme soup, parser-token sequences (named and unnamed types, with / without EOF, short / long position maps), statement prefixes, corpus byte prefixes, token corruptions, length and depth ladders, saturation and after-failure histories x about 60 entry points, worker isolation",
+ "C02": "call-graph cycles x guard recognition + nesting, ladder and chain families x every depth 1..130 + ladder; size / token limits x 16 entry points x padding shapes",
+ "C03": "sqlgen.All x minimal / full parentheses x 4 layouts",
+ "C04": "lexeme pairs / triples x separators, ends, keywords, comments, hostile bytes, fragments, unterminated openers",
+ "C05": "C04 space + multi-line layouts + rejected byte / stray ] at every token boundary + primed tokenizers + lexical errors through 8 text entry points behind paddings",
+ "C06": "accepted statements (+ lower / mixed-case and commented layouts) + corpus x 143 serialiser configurations (AST.SQL, AST.Format, CLI formatter, gosqlx.Format, formatter.Format)",
+ "C07": "valid, corrupted, scripts, comments, lexical garbage, size and token limit boundaries x 16 entry points; batches; primed batches",
+ "C08": "all histories depth <=4/5 over 17 parser ops and 11 tokenizer ops + 15 / 9 probes; one-operation sweep (model statements, utility statements, corpus files, prefixes); pool hand-out histories depth 5/6",
+ "C09": "(type, field, path) obligations + all histories depth <=4/5 over 24 ops + release audit with 10 read-only consumers + token hand-back sweep",
+ "C10": "122 harness instances, preemption bound 2/3, pool deviations 1/2, first-use order histories, + free-running -race pass (sampling)",
+ "C11": "every poll k of every input x 4 entry points x 2 error kinds (+ 2 other context kinds); big inputs and limit boundaries with sparse polls",
+ "C12": "scripts over valid + corrupted segments; prefixes; corruptions at every position of expressions and clause / DML / DDL statements; token soup; corpus prefixes",
+ "C13": "rejected inputs (token corruptions, number positions, fragment strings, limits, statement-less pairs) x 10 entry points; reused-parser and reused-tokenizer histories",
+ "C14": "(node type x field) obligations incl. ragged slices, dynamic types, discriminators + trees + chains + recycled-tree pairs + corpus",
+ "C15": "SELECT / DML / MERGE statements x 6 extractors x 2 layouts; deep chains / nestings; recycled-node pairs",
+ "C16": "payload x position x wrapper x 3 APIs x 3 layouts x 4 thresholds; UNION probes x hosts x spellings; scripts",
+ "C17": "all <=3/4-line texts over a 30-fragment alphabet x 4 line-terminator forms x 8 rewriters + rule models",
+ "C18": "64-message alphabet depth 3/4 (+1); all single / paired edits on 8 documents (with and without rangeLength); position sweep",
+ "C19": "CLI scenarios (file sets x flags, argument forms, output files, path spellings) + RLIMIT_FSIZE at every byte (short write / kill) + strace faults",
+ "C20": "85 families x 15 entry points x size ladder, block-count and allocation growth",
+}
+ROWS = []
 for i in range(1, 21):
     pid = "C%02d" % i
     row = [pid]
@@ -30,4 +53,13 @@ for i in range(1, 21):
         s += " / %d listed findings hit" % len(k) if k else ""
         if not c.get("exhaustive", True): s += " (NOT exhaustive)"
         row.append(s)
-    print("| %s | %s | %s | %s |" % (row[0], lvl, row[1], row[2]))
+    ROWS.append("| %s | %s | %s | %s | %s |" % (row[0], lvl, row[1], row[2], SPACE[pid]))
+print("\n".join(ROWS))
+if len(sys.argv) > 3 and sys.argv[3] == "--write":
+    import re
+    p = os.path.join(os.path.dirname(os.path.abspath(__file__)), "..", "DESIGN.md")
+    d = open(p).read()
+    head = "| id | level | quick: cases / wall | thorough: cases / wall | space actually enumerated |\n|---|---|---|---|---|\n"
+    a = d.index(head) + len(head)
+    b = d.index("\n\n", a)
+    open(p, "w").write(d[:a] + "\n".join(ROWS) + d[b:])
